@@ -108,7 +108,7 @@ def _do(f, op, n):
 def _open(codec, payload, level, bs):
     import joblib.compressor as jc
     cls = jc.BinaryGzipFile if codec == "gzip" else jc.BinaryZlibFile
-    raw = gzip.compress(payload, level) if codec == "gzip" else zlib.compress(payload, level)
+    raw = gzip.compress(payload, level, mtime=0) if codec == "gzip" else zlib.compress(payload, level)
     jc._BUFFER_SIZE = bs
     return cls(io.BytesIO(raw), "rb")
 
@@ -202,8 +202,8 @@ def ob_amounts(p: int, n: int) -> bool:
     return H.verdict(not probs, *probs)
 
 
-BIG_SIZES = [8191, 8192, 8193, 16385]
-BIG_AMOUNTS = [0, 1, 8191, 8192, 8193, 16384, 20000, -1]
+BIG_SIZES = [8191, 8193, 16385]
+BIG_AMOUNTS = [1, 8191, 8192, 8193, 20000, -1]
 
 
 def _big_payload(size, kind):
@@ -214,14 +214,14 @@ def _big_payload(size, kind):
 
 def ob_big(si: int, kind: int, a1: int, op1: int, a2: int, op2: int) -> bool:
     """
-    pre: 0 <= si <= 3 and 0 <= kind <= 1
-    pre: 0 <= a1 <= 7 and 0 <= a2 <= 7
+    pre: 0 <= si <= 2 and 0 <= kind <= 1
+    pre: 0 <= a1 <= 5 and 0 <= a2 <= 5
     pre: 0 <= op1 <= 2 and 0 <= op2 <= 2
     post: _
     """
     H.enter()
-    s, k = H.select(si, 0, 3), H.select(kind, 0, 1)
-    x1, x2, o1, o2 = H.select(a1, 0, 7), H.select(a2, 0, 7), H.select(op1, 0, 2), H.select(op2, 0, 2)
+    s, k = H.select(si, 0, 2), H.select(kind, 0, 1)
+    x1, x2, o1, o2 = H.select(a1, 0, 5), H.select(a2, 0, 5), H.select(op1, 0, 2), H.select(op2, 0, 2)
     with H.native():
         names = ["read", "seek0", "seek1"]
         payload = _big_payload(BIG_SIZES[s], k)
@@ -305,7 +305,7 @@ def obligations(tier, seed):
                     "bounds": "payload of 9 bytes, block size 4: seek(p), p in 0..10, then %s(n) with n symbolic in [-2,12]" % op})
     for codec in ("zlib", "gzip"):
         obs.append({"name": "big/%s" % codec, "fn": "ob_big", "mode": "S", "params": {"codec": codec}, "timeout": 900,
-                    "bounds": "real block size 8192; payloads of 8191/8192/8193/16385 bytes (in)compressible; two operations "
+                    "bounds": "real block size 8192; payloads of 8191/8193/16385 bytes (in)compressible; two operations "
                               "from read/seek(abs)/seek(rel) with amounts at the block boundaries"})
         for pl in ("lines9", "empty", "aaaa40") if codec == "zlib" else ("rand13", "empty"):
             obs.append({"name": "write/%s/%s" % (codec, pl), "fn": "ob_write", "mode": "S",
